@@ -44,3 +44,21 @@ def sliced_wasserstein(P1, P2, M):
 def entropy(lengths):
     L = math.fsum(lengths)
     return -math.fsum((l / L) * math.log(l / L) for l in lengths)
+
+
+def sliced_wasserstein_np(P1, P2, M):
+    """The same definition evaluated with numpy (for diagrams of tens to hundreds of points, where the
+    pure-Python loop is too slow); validated against sliced_wasserstein() in the self-test."""
+    import numpy as np
+
+    P1 = np.asarray(P1, dtype=float).reshape(-1, 2)
+    P2 = np.asarray(P2, dtype=float).reshape(-1, 2)
+    m1 = P1.sum(axis=1, keepdims=True) / 2.0
+    m2 = P2.sum(axis=1, keepdims=True) / 2.0
+    A = np.vstack([P1, np.hstack([m2, m2])])
+    B = np.vstack([P2, np.hstack([m1, m1])])
+    th = math.pi * (0.5 + np.arange(M) / float(M))
+    U = np.vstack([np.cos(th), np.sin(th)])          # (2, M)
+    va = np.sort(A @ U, axis=0)
+    vb = np.sort(B @ U, axis=0)
+    return math.fsum((np.abs(va - vb).sum(axis=0) / M).tolist())
